@@ -386,7 +386,6 @@ type waiter struct {
 	sel     bool
 }
 
-
 type chanWait struct {
 	sendq []*waiter
 	recvq []*waiter
